@@ -118,6 +118,6 @@ WsAll == 0..2
 WsWide == 0..4
 RHalf == <<1, 2>>
 RThreeHalves == <<3, 2>>
-RMilli == <<1, 1000>>
-RKilo == <<1000, 1>>
+RCenti == <<1, 100>>
+RHecto == <<100, 1>>
 =====================================================================================
